@@ -221,12 +221,30 @@ func LabelMatchingByLibrary(p *core.Program, r *core.Report, rule string) {
 // the ports of an admin-policy rule are examined only after the rule's peers selected the peer (which never select an
 // IP block), in the single-query matchers and in the connection-set builders alike.
 func PeerBeforePorts(p *core.Program, r *core.Report, rule string) {
-	type site struct{ fn, ports, sel string }
+	type site struct{ fn, sel string }
+	// the functions that examine a rule's ports on the destination (named ports are resolved on its pod)
+	portFns := map[*types.Func]bool{}
+	for _, nm := range []string{"anpPortContains", "ruleConnections"} {
+		if g := p.Func(core.PkgK8s, "", nm); g != nil {
+			portFns[g.Obj] = true
+		}
+	}
+	examinesPorts := func(g *types.Func) bool {
+		if portFns[g] {
+			return true
+		}
+		for h := range p.Reachable(g) {
+			if portFns[h] {
+				return true
+			}
+		}
+		return false
+	}
 	for _, s := range []site{
-		{"checkIfEgressRuleContainsConn", "anpPortContains", "egressRuleSelectsPeer"},
-		{"checkIfIngressRuleContainsConn", "anpPortContains", "ingressRuleSelectsPeer"},
-		{"updateConnsIfEgressRuleSelectsPeer", "updatePolicyConns", "egressRuleSelectsPeer"},
-		{"updateConnsIfIngressRuleSelectsPeer", "updatePolicyConns", "ingressRuleSelectsPeer"},
+		{"checkIfEgressRuleContainsConn", "egressRuleSelectsPeer"},
+		{"checkIfIngressRuleContainsConn", "ingressRuleSelectsPeer"},
+		{"updateConnsIfEgressRuleSelectsPeer", "egressRuleSelectsPeer"},
+		{"updateConnsIfIngressRuleSelectsPeer", "ingressRuleSelectsPeer"},
 	} {
 		fd := p.Func(core.PkgK8s, "", s.fn)
 		if fd == nil {
@@ -234,29 +252,34 @@ func PeerBeforePorts(p *core.Program, r *core.Report, rule string) {
 			continue
 		}
 		info := fd.Pkg.TypesInfo
-		var portsCall, selCall *ast.CallExpr
+		// every call that examines the ports - directly or through a helper, whatever it is called - runs where the
+		// selection result is known to be true
+		var portsCalls []*ast.CallExpr
+		var selCall *ast.CallExpr
 		ast.Inspect(fd.Decl.Body, func(nd ast.Node) bool {
 			if c, ok := nd.(*ast.CallExpr); ok {
-				if fn := core.Callee(info, c); fn != nil {
-					if core.RefName(fn) == s.ports {
-						portsCall = c
-					}
+				if fn := core.Callee(info, c); fn != nil && p.IsModuleFunc(fn) {
 					if core.RefName(fn) == s.sel {
 						selCall = c
+					} else if examinesPorts(fn) {
+						portsCalls = append(portsCalls, c)
 					}
 				}
 			}
 			return true
 		})
 		ok := false
-		if portsCall != nil && selCall != nil {
+		if len(portsCalls) > 0 && selCall != nil {
 			// the selection result variable is known true at the ports call
 			as, _ := enclosingStmt(fd.Decl.Body, selCall.Pos()).(*ast.AssignStmt)
 			if as != nil {
 				if id, isID := as.Lhs[0].(*ast.Ident); isID {
-					fm, paths, found := FactsAtWith(fd, portsCall, nil, []ast.Expr{id})
-					if found && len(paths) == 1 {
-						ok = facts.Entails(fm, facts.Atom("b:"+paths[0]))
+					ok = true
+					for _, portsCall := range portsCalls {
+						fm, paths, found := FactsAtWith(fd, portsCall, nil, []ast.Expr{id})
+						if !found || len(paths) != 1 || !facts.Entails(fm, facts.Atom("b:"+paths[0])) {
+							ok = false
+						}
 					}
 				}
 			}
